@@ -113,16 +113,11 @@ func (fr *Frame) callAssigns(c *ssa.CallCommon) (map[string]bool, bool) {
 		case a.All:
 			return out, true
 		case a.Mem:
-			for k := range ex.arrSorts {
-				if strings.HasPrefix(k, "M_") || strings.HasPrefix(k, "MH_") || strings.HasPrefix(k, "MV_") || k == "ML" {
-					out[k] = true
-				}
-			}
-			return out, true // unknown future arrays: be conservative
+			out["*mem"] = true
 		case a.Model == "allrows":
 			for _, mn := range sortedKeys(ex.S.Models) {
 				md := ex.S.Models[mn]
-				if len(md.Params) > 0 && md.Params[0].S == SInt && md.Params[0].Name == "o" {
+				if len(md.Params) > 0 && md.Params[0].Obj {
 					an, _ := ex.modelArray(mn)
 					out[an] = true
 				}
@@ -134,7 +129,14 @@ func (fr *Frame) callAssigns(c *ssa.CallCommon) (map[string]bool, bool) {
 			}
 			out[an] = true
 		case a.Deref != nil:
-			return out, true
+			// a Go memory location: over-approximate by all scalar memory classes known so far
+			for k := range ex.arrSorts {
+				if strings.HasPrefix(k, "M_") {
+					out[k] = true
+				}
+			}
+			out["M_Ref"] = true
+			ex.arraySort("M_Ref", "(Array Int Int)")
 		}
 	}
 	return out, false
@@ -290,6 +292,7 @@ func (fr *Frame) unknownCall(ci calleeInfo, args []Val) []Val {
 	ex := fr.ex
 	ex.unknownCalls[ci.display]++
 	fr.curMem = ex.newMem()
+	fr.curMem.lost = true
 	return fr.freshResults(ci.sig, "ret_"+lastSeg(ci.display))
 }
 
@@ -350,6 +353,7 @@ func (fr *Frame) applyContract(in ssa.Instruction, ci calleeInfo, ct *Contract, 
 		post = pre.clone()
 		if !ct.HasAssigns {
 			post = ex.newMem()
+			post.lost = true
 		} else {
 			ec := fr.evalCtx(pre, pre)
 			ec.names = names
@@ -479,28 +483,34 @@ func (fr *Frame) calleeDisplayQuick(c *ssa.CallCommon) string {
 // havocTargets applies an assigns clause to mem.
 func (fr *Frame) havocTargets(mem *MemState, targets []AssignTarget, ec *EvalCtx) {
 	ex := fr.ex
+	// Go memory locations first (addresses evaluated in the pre-state), then model rows (identities in the new state)
+	var ordered []AssignTarget
 	for _, a := range targets {
+		if a.Deref != nil {
+			ordered = append(ordered, a)
+		}
+	}
+	for _, a := range targets {
+		if a.Deref == nil {
+			ordered = append(ordered, a)
+		}
+	}
+	rowCtx := *ec
+	rowCtx.mem = mem
+	for _, a := range ordered {
 		switch {
 		case a.Nothing:
 		case a.All:
 			nm := ex.newMem()
 			mem.arrays, mem.ep = nm.arrays, nm.ep
+			mem.lost = true
 		case a.Mem:
-			var ks []string
-			for k := range ex.arrSorts {
-				if strings.HasPrefix(k, "M_") || strings.HasPrefix(k, "MH_") || strings.HasPrefix(k, "MV_") || k == "ML" {
-					ks = append(ks, k)
-				}
-			}
-			sort.Strings(ks)
-			for _, k := range ks {
-				ex.memHavoc(mem, k)
-			}
+			ex.havocGoMemory(mem)
 		case a.Model == "allrows":
-			row := ec.coerce(ec.eval(a.Arg), SInt)
+			row := rowCtx.objid(rowCtx.eval(a.Arg))
 			for _, mn := range sortedKeys(ex.S.Models) {
 				md := ex.S.Models[mn]
-				if len(md.Params) == 0 || md.Params[0].S != SInt || md.Params[0].Name != "o" {
+				if len(md.Params) == 0 || !md.Params[0].Obj {
 					continue
 				}
 				an, _ := ex.modelArray(mn)
@@ -518,7 +528,7 @@ func (fr *Frame) havocTargets(mem *MemState, targets []AssignTarget, ec *EvalCtx
 				ex.memHavoc(mem, an)
 				continue
 			}
-			row := ec.coerce(ec.eval(a.Arg), md.Params[0].S)
+			row := rowCtx.argFor(rowCtx.eval(a.Arg), md.Params[0])
 			_, rowSort, _ := arraySorts(md.arraySort())
 			cur := ex.memGet(mem, an)
 			fv := ex.fresh("row_"+a.Model, rowSort)
@@ -849,4 +859,24 @@ func (fr *Frame) varargsHaveGlobal(v ssa.Value, global string) string {
 		}
 	}
 	return "false"
+}
+
+// havocGoMemory: all Go memory (heap cells, maps, channels) becomes arbitrary; model fields are kept.
+func (ex *Exec) havocGoMemory(mem *MemState) {
+	for _, mn := range sortedKeys(ex.S.Models) {
+		an, _ := ex.modelArray(mn)
+		ex.memGet(mem, an) // materialise before switching epochs
+	}
+	keep := map[string]string{}
+	for k, v := range mem.arrays {
+		if strings.HasPrefix(k, "F_") || strings.HasPrefix(k, "IT") {
+			keep[k] = v
+		}
+	}
+	nm := ex.newMem()
+	mem.arrays, mem.ep = nm.arrays, nm.ep
+	mem.memLost = true
+	for k, v := range keep {
+		mem.arrays[k] = v
+	}
 }
